@@ -944,3 +944,51 @@ def suite_reconnect_fidelity(report, tier, seed, prop="C13"):
     report.obligation("mon:reconnect-fidelity", "monitor", mon_ok,
                       f"{len(cases)} scenarios: a connection of the real tokio/threaded client ends (write error, EOF, stop) while bytes are unsent; the next transport receives exactly "
                       "the engine model's stream for the new connection (CONNECT first, nothing stale, nothing lost)")
+
+
+def suite_midbatch_service(report, tier, seed, prop="C13"):
+    """a service call in the middle of a batch: the transport has taken only part of what the engine produced and stalls; while
+    it stalls the ack timeout of an earlier operation falls due and the driver services the engine again (more bytes are
+    appended behind the unsent rest); then the transport takes the rest.  What the transport received is exactly the packets
+    the engine produced, whole and in order - nothing of the stalled batch is skipped or sent twice."""
+    from walk import split_packets
+    cases = []
+    for kind in ("tokio", "threaded"):
+        for v in (5, 311):
+            for first, size in ((100, 300), (7, 300), (200, 220), (150, 2000)):
+                for stall in (400, 250):
+                    cases.append((f"drv.run kind={kind} v={v} wplan=a100000,a100000,a{first},b,a100000,a100000,a100000 | start;waitwire:1;subto:150;waitwire:2;sleep:10;pub:1:{size};waitblocked;sleep:{stall};release;sleep:300", kind, size))
+    impl = harness_batch_parallel([c[0] for c in cases])
+    mon_ok = True
+    judged = 0
+    for (req, kind, size), a in zip(cases, impl):
+        report.case(req)
+        report.traces_validated += 1
+        report.count("midbatch-service." + kind)
+        fa, _ = resp_fields(a)
+        if fa.get("res") != "ok":
+            mon_ok = False
+            report.add_finding(Finding(prop, "mon:midbatch-service", {"clause": "scenario-failed", "kind": kind}, "driver scenario failed: " + a[:160], [req]))
+            continue
+        wires = [unhex(w) for w in fa.get("wires", "").split(",") if w]
+        wire = wires[0] if wires else b""
+        pkts, rest, bad = split_packets(wire)
+        kinds = [fb >> 4 for fb, _ in pkts]
+        pubs = [body for fb, body in pkts if fb >> 4 == 3]
+        problem = None
+        if "waitblocked-timeout" in fa.get("notes", ""):
+            report.count("midbatch-service.not-blocked")
+            continue
+        judged += 1
+        if bad or rest:
+            problem = f"the byte stream does not end at a packet boundary ({len(rest)} bytes left over, malformed={bad})"
+        elif kinds[:2] != [1, 8] or len(pubs) != 1:
+            problem = f"packet types on the wire: {kinds} (expected CONNECT, SUBSCRIBE, one PUBLISH)"
+        elif pubs[0].count(0x70) < size:
+            problem = f"the PUBLISH carries {pubs[0].count(0x70)} of its {size} payload bytes"
+        if problem:
+            mon_ok = False
+            report.add_finding(Finding(prop, "mon:midbatch-service", {"clause": "bytes-lost-in-stalled-batch", "kind": kind},
+                                       f"{kind} client: {problem}", [req, "# transport: " + hexs(wire)[:600]]))
+    report.count("midbatch-service.judged", judged)
+    report.obligation("mon:midbatch-service", "monitor", mon_ok and judged > 0, f"{judged} stalled batches with a service call in the middle: the transport receives whole packets, in order, once")
